@@ -18,6 +18,9 @@
 (*          that computation is treated as "no match" (parse.go:111-117)   *)
 (*   xp     0 (no xpath) or an index into XP (relative paths)              *)
 (*   ty     "none" | "int" | "float" | "boolean" | "string"   (type)       *)
+(*   kind "external": the external property named lit (the caller's         *)
+(*          ExternalProperties: p1 = "x", p2 = " y "; p3 is not supplied and *)
+(*          fails the record)                                               *)
 (*   kind "jsconst": a value computed by a script (custom_func javascript    *)
 (*          without arguments); lit names it: "int:7" "float:1.5" "bool:true" *)
 (*          "str:1" "str:1.5" "str:x" "str:true" - the typed sources of the    *)
@@ -85,6 +88,11 @@ NormStr(T, t, s0) ==
        THEN IF s = <<"1">> THEN <<"b", "true">> ELSE FailV
        ELSE IF s = <<>> THEN (IF T.keep[t] THEN <<"s">> ELSE NilV) ELSE <<"s">> \o s
 
+\* --- external properties supplied by the caller of NewTransform
+ExtDefined(name) == name \in {"p1", "p2"}
+ExtText(name) == IF name = "p1" THEN "x" ELSE " y "
+External(T, t) == IF ExtDefined(T.lit[t]) THEN NormStr(T, t, Chars(ExtText(T.lit[t]))) ELSE FailV
+
 \* --- typed sources (results of custom functions): the conversion matrix of resultTypeConversion
 JsKind(lit) == CASE lit \in {"int:7"} -> "int" [] lit \in {"float:1.5"} -> "float" [] lit \in {"bool:true"} -> "bool" [] OTHER -> "str"
 JsText(lit) == CASE lit = "int:7" -> "7" [] lit = "float:1.5" -> "1.5" [] lit = "bool:true" -> "true" [] lit = "str:1" -> "1"
@@ -142,6 +150,7 @@ RefEval(D, T, t, n0) ==
   LET a == RefAnchor(D, T, t, n0) IN
   IF T.kind[t] = "const" THEN NormStr(T, t, Chars(T.lit[t]))
   ELSE IF T.kind[t] = "jsconst" THEN JsConst(T, t)
+  ELSE IF T.kind[t] = "external" THEN External(T, t)
   ELSE IF T.kind[t] = "dynfield" THEN
     IF UnderArray(T, t) THEN NormStr(T, t, StrSeq(D, n0))                 \* the array already selected the node
     ELSE LET xpi == DynXP(RefEval(D, T, TKids(T, t)[1], n0))
@@ -249,6 +258,7 @@ ImplEval(D, T, t, n0, cache, KeyHasAnchor, SortByFqdn) ==
   IN
   IF T.kind[t] = "const" THEN save([v |-> NormStr(T, t, Chars(T.lit[t])), c |-> cache])
   ELSE IF T.kind[t] = "jsconst" THEN save([v |-> JsConst(T, t), c |-> cache])
+  ELSE IF T.kind[t] = "external" THEN save([v |-> External(T, t), c |-> cache])
   ELSE IF T.kind[t] = "dynfield" THEN
     IF UnderArray(T, t) THEN save([v |-> NormStr(T, t, StrSeq(D, n0)), c |-> cache])
     ELSE LET dr == ImplEval(D, T, TKids(T, t)[1], n0, cache, KeyHasAnchor, SortByFqdn)       \* computeXPathDynamic -> ParseNode
